@@ -1,6 +1,11 @@
 -- Root of the `Passage` library: every model, lemma and property module.
+import Passage.Props.C01
+import Passage.Props.C02
+import Passage.Props.C03
 import Passage.Props.C05
+import Passage.Props.C06
 import Passage.Props.C09
+import Passage.Props.C10
 import Passage.Props.C11
 import Passage.Props.C13
 import Passage.Props.C18
@@ -9,4 +14,5 @@ import Passage.Driver.C09
 import Passage.Driver.C11
 import Passage.Driver.C13
 import Passage.Driver.C18
+import Passage.Driver.Conn
 import Passage.Crypto.SelfTest
